@@ -412,6 +412,10 @@ func parseString(p *peeker) (node, hcl.Diagnostics) {
         var errRange hcl.Range
         if serr, ok := err.(*json.SyntaxError); ok {
             errOfs := serr.Offset
+            if errOfs > 0 {
+                // Offset counts the bytes read, the offending byte is the last of them
+                errOfs--
+            }
             errPos := tok.Range.Start
             errPos.Byte += int(errOfs)
 
